@@ -94,7 +94,29 @@ def generic(prop, cfg, tier, seed, parts, extra_viol=(), extra_cov=None, extra_k
         tool, nq, nt, extra, lifts = part[:5]
         only = part[5] if len(part) > 5 else None      # keep only these failure kinds (the others belong to another property)
         n = nq if tier == "quick" else nt
+        tool_lines = os.path.join(core.BUILD, "work", "tool_lines_%s.txt" % prop)
+        if tool == "pvtool" and prop == "C13":
+            if os.path.exists(tool_lines):
+                os.remove(tool_lines)
+            extra = list(extra) + ["-toolout", tool_lines]
         r = run_tool(tool, seed, n, extra, pigeon=(tool != "pvopt"), prop=prop)
+        if tool == "pvtool" and prop == "C13" and os.path.exists(tool_lines):
+            # the exit-status model (lean/PigeonVerif/Model/Tool.lean, the subject of the C13 theorems) against the real
+            # binary: what the harness knows of every run's stages + the observed status -> the driver answers with the
+            # statuses the model allows
+            lines = [l for l in open(tool_lines).read().splitlines() if l.startswith("tool ")]
+            q = subprocess.run([core.DRIVER], input=("\n".join(lines) + "\n").encode(), stdout=subprocess.PIPE, stderr=subprocess.PIPE, timeout=600)
+            answers = q.stdout.decode().splitlines()
+            bad = [(l, a) for l, a in zip(lines, answers) if a.split(" ")[2:3] != ["ok"]]
+            if len(answers) != len(lines):
+                bad.append(("", "the driver answered %d of %d tool lines: %s" % (len(answers), len(lines), q.stderr.decode()[-300:])))
+            r.setdefault("stats", {})
+            reports["exit_status_model"] = {"runs_compared": len(lines), "disagreements": len(bad),
+                                            "argument_level_runs": sum(1 for l in lines if int(l.split(" ")[1]) > 900000)}
+            for l, a in bad[:3]:
+                rep("pvtool/exit-status-model", {"detail": "the exit status of this run is not one the model of main() (Tool.exit) allows for what is known of its stages: line `%s` (run index = id - 1 of `pvtool -seed %d -n %d`; ids above 900000 are the fixed argument-level runs of pvtool's argRuns), the model allows `%s`" % (l, seed, n, a),
+                                                 "tool_line": l, "model": a})
+            nviol += max(0, len(bad) - 3)
         if only is not None:
             r["failures"] = [f for f in (r.get("failures") or []) if f.get("kind") in only]
             r["failure_count"] = sum((r.get("failures_by_kind") or {}).get(k, 0) for k in only)
